@@ -80,6 +80,38 @@ def run(rng, tier, res=None, want=("arcs", "pdf", "cluster")):
         for m in (msgs if isinstance(msgs, list) else [msgs])[:3]:
             res.violations.append({"property": prop, "what": m, "replay": meta})
 
+    # ---- feature mode: zero-guarded ratio metrics on count data with shared exact zeros (C12 on what the caller supplied) ----
+    import opfython.math.distance as _dist
+    for case in range(40 * scale if "arcs" in want else 0):
+        n = rng.choice([3, 4, 5, 6, 8]); d = rng.choice([3, 4, 5])
+        metric = rng.choice(["canberra", "clark", "bray_curtis", "chi_squared", "divergence", "euclidean"])
+        f_ = _dist.DISTANCES[metric]
+        X = np.array([[float(rng.choice([0, 0, 0, 1, 2, 5])) for _ in range(d)] for _ in range(n)])
+        for r in range(n):
+            if X[r].sum() == 0:
+                X[r][rng.randrange(d)] = 1.0
+        X0 = X.copy()
+        k = rng.randint(1, n - 1)
+        sgf = KNNSubgraph(X, np.zeros(n, dtype=int))
+        try:
+            maxd = sgf.create_arcs(k, f_, False, None)
+        except Exception as ex:
+            viol("C12", f"create_arcs({metric}) raised {type(ex).__name__} on count data", {"metric": metric, "X": X0.tolist(), "k": k})
+            continue
+        Dm = [[float(f_(X0[a].copy(), X0[b].copy())) for b in range(n)] for a in range(n)]
+        msgs = []
+        for i in range(n):
+            want_nb = sorted((j for j in range(n) if j != i), key=lambda j: (Dm[i][j], j))[:k]
+            got_nb = [int(v) for v in sgf.nodes[i].adjacency]
+            if [Dm[i][j] for j in got_nb] != [Dm[i][j] for j in want_nb]:
+                msgs.append(f"{metric}: sample {i}: neighbours {got_nb} have distances {[Dm[i][j] for j in got_nb]}, the {k} smallest are "
+                            f"{[Dm[i][j] for j in want_nb]} (distances evaluated on the samples as supplied)")
+            elif sgf.nodes[i].radius != max(Dm[i][j] for j in want_nb):
+                msgs.append(f"{metric}: sample {i}: radius {sgf.nodes[i].radius} != {max(Dm[i][j] for j in want_nb)}")
+        viol("C12", msgs, {"metric": metric, "X": X0.tolist(), "k": k})
+        if X.tobytes() != X0.tobytes():
+            res.violations.append({"property": "C07", "what": f"create_arcs({metric}) modified the caller's feature matrix", "replay": {"metric": metric}})
+        res.add_case(f"arcsfeat {metric} {n} {k} {case}", nontrivial=True); res.hit("arcs_feature_mode_sparse")
     fn = lambda a, b: 0.0  # noqa  (never called: pre-computed matrices)
     kinds = ["lattice", "lattice", "dups", "tiny", "allequal", "distinct", "distinct", "real", "real", "firstdup", "asym", "asym"]
     for case in range((480 if "cluster" in want else 320) * scale):
